@@ -2,7 +2,7 @@
 import ast
 
 from ..index import AnalysisError, u, call_name, call_attr, walk_local, base_name
-from .. import flow
+from .. import flow, interp
 from ..fold import try_fold
 from ..tables import registrations, class_literal, self_attr_store
 from ..util import stmts_with_env, calls_with_env, kwarg, assignments_to, single_def
@@ -449,5 +449,114 @@ def run(ck):
     ck.analysed(mi, rp)
     dup = [(st_, c_) for st_, c_, e_ in raise_conditions(rp) if any(k[0] == 'In' and k[1] == 'from_atom' and k[2] == 'mapping' for k in flow.atoms_of(c_))]
     ck.ob('DT-reject', mi.loc(rp), len(dup) == 1, 'a source atom defined twice in [ atoms ] is rejected', key='DT-reject|map-duplicate-atom')
+    prefix_order_table(ck, ff)
     shared.truthy_zero(ck, [FF, ITP, PU, MAP, 'vermouth/map_input.py'])
     ck.assume('token-level grammar, macro substitution results and .map weight arithmetic are not decided')
+
+
+# ----------------------------------------------------------------- prefix / order normalisation (small-domain interpretation)
+def _spec_prefix(reference, attributes):
+    """Documented meaning of a link atom key + attributes (ffinput._treat_atom_prefix docstring, rst docs):
+    returns ('raise',) or (key, order, atomname)."""
+    import collections.abc
+    import numbers
+    if not reference:
+        return ('raise',)
+    k = 0
+    while k < len(reference) and reference[k] in '+-><*':
+        k += 1
+    prefix, base = reference[:k], reference[k:]
+    if not base or len(set(prefix)) > 1:
+        return ('raise',)
+    order_attr = attributes.get('order')
+    pre_attr = ''
+    if order_attr is not None:
+        if isinstance(order_attr, numbers.Integral) and not isinstance(order_attr, bool):
+            pre_attr = ('+' if order_attr > 0 else '-') * abs(order_attr)
+        elif isinstance(order_attr, str) and order_attr and len(set(order_attr)) == 1 and order_attr[0] in '><*':
+            pre_attr = order_attr
+        else:
+            return ('raise',)
+    if prefix:
+        order_pre = len(prefix) if prefix[0] == '+' else -len(prefix) if prefix[0] == '-' else prefix
+        if order_attr is not None and order_attr != order_pre:
+            return ('raise',)
+        key = reference
+    else:
+        order_pre = 0
+        key = pre_attr + base
+    order = order_attr if order_attr is not None else order_pre
+    return (key, order, attributes.get('atomname', base))
+
+
+def prefix_order_table(ck, ff):
+    import collections.abc
+    import numbers
+    fns = {}
+    for name in ('_treat_atom_prefix', '_split_node_key', '_get_order_and_prefix_from_attributes', '_get_order_and_prefix_from_prefix'):
+        fns[name] = ck.need(ff.functions.get(name), 'ffinput.{} vanished'.format(name))
+        ck.analysed(ff, fns[name])
+    consts = {'numbers.Integral': numbers.Integral, 'collections.abc.Sequence': collections.abc.Sequence, 'bool': bool}
+
+    def make(name):
+        fn = fns[name]
+        params = [a.arg for a in fn.args.args]
+
+        def impl(*args):
+            env = dict(consts)
+            env.update(helpers)
+            env.update(zip(params, args))
+            got = interp.call(fn.body, env)
+            if isinstance(got, tuple) and got and got[0] == 'raise':
+                raise _Raised()
+            return got
+        return impl
+
+    class _Raised(Exception):
+        pass
+    helpers = {}
+    for name in fns:
+        helpers[name] = make(name)
+    refs = ['BB', '+BB', '++BB', '-BB', '--BB', '>BB', '>>BB', '<BB', '<<BB', '*BB', '**BB', '+', '>>', '', '+-BB', '><BB', 'B+B', '-1']
+    orders = ['absent', None, 1, 2, -1, -2, 0, '>', '>>', '<', '<<', '*', '**', True, False, 'x', '+', '><', '', 1.0]
+    bad = []
+    n = 0
+    try:
+        for ref in refs:
+            for order in orders:
+                for atomname in ('absent', 'CA'):
+                    attrs = {'resname': 'ALA'}
+                    if order != 'absent' or order is True:
+                        attrs['order'] = order
+                    if isinstance(order, str) and order == 'absent':
+                        attrs.pop('order', None)
+                    if atomname != 'absent':
+                        attrs['atomname'] = atomname
+                    want = _spec_prefix(ref, attrs)
+                    given = dict(attrs)
+                    try:
+                        out = helpers['_treat_atom_prefix'](ref, attrs)
+                        got = (out[0], out[1].get('order'), out[1].get('atomname')) if isinstance(out, tuple) and len(out) == 2 and isinstance(out[1], dict) else ('?', out)
+                        if got[0] != '?' and (out[1].get('resname') != 'ALA' or attrs != given):
+                            got = ('other attributes changed or input dict mutated',)
+                    except _Raised:
+                        got = ('raise',)
+                    except (TypeError, ValueError, IndexError, KeyError, AttributeError) as err:
+                        got = ('python error', type(err).__name__)
+                    n += 1
+                    if got != want:
+                        bad.append('key {!r} attrs {!r}: {} (documented {})'.format(ref, given, got, want))
+    except interp.Unsupported as err:
+        bad = ['decision code outside the interpretable fragment: {}'.format(err)]
+    ck.extra['prefix_order_cases'] = n
+    ck.ob('DT-prefix-order', ff.loc(fns['_treat_atom_prefix']), not bad,
+          'key prefix and explicit order attribute mean the same thing: over {} (key, attributes) cases the interpreted _treat_atom_prefix '
+          '(+ _split_node_key, _get_order_and_prefix_from_*) gives the documented key / order / atomname or the documented rejection{}'.format(
+              n, '' if not bad else '; first differences: ' + ' || '.join(bad[:4])), key='DT-prefix-order|table')
+    # the normalisation is applied to every link atom: the two callers
+    for name, expect in (('_treat_link_interaction_atoms', 1), ('_parse_link_atom', 1)):
+        fn = ck.need(ff.functions.get(name), 'ffinput.{} vanished'.format(name))
+        ck.analysed(ff, fn)
+        calls = [c for c in ast.walk(fn) if isinstance(c, ast.Call) and call_name(c) == '_treat_atom_prefix']
+        ck.ob('DT-prefix-order', ff.loc(fn), len(calls) >= expect, '{} normalises key / order / atomname through _treat_atom_prefix ({} call(s))'.format(name, len(calls)),
+              key='DT-prefix-order|caller|' + name)
